@@ -40,6 +40,9 @@ type glExtern struct {
 	// effect: when non-empty the call is also an EFFECT — before its value is used, `<effect> <selected args>` is
 	// appended to the function's trace (`trace_`), which every `return` hands back as the last component
 	effect string
+	// out: when > 0, the 1-based index of an argument of the form `&v` that RECEIVES the first component of the Lean
+	// term's value (`err := f(x, &v)` becomes `match f x with | (v, err) => …`); the argument itself is not passed
+	out int
 }
 
 type glTarget struct {
@@ -54,6 +57,8 @@ type glTarget struct {
 	retLean   string // Lean result type (required)
 	natInts   bool   // Go ints of this function are bit sets / counters: translate as Nat
 	externs   map[string]glExtern
+	// zeros: the zero value (Lean term) of Go struct types this target declares variables or named results of
+	zeros map[string]string
 	// Go types of parameters whose syntactic type the translator cannot use directly
 	paramGo map[string]string
 	// block mode: translate the top-level statements of function `in` from the one whose printed text starts with
@@ -893,6 +898,9 @@ func (c *glCtx) zero(n ast.Node, goType string) string {
 		// a fixed-size array: opaque (the subset has no indexing; it can only be handed to ignored calls)
 		return "()"
 	}
+	if z, ok := c.t.zeros[goType]; ok {
+		return z
+	}
 	c.fail(n, "zero value of type %s", goType)
 	return ""
 }
@@ -910,6 +918,29 @@ func (c *glCtx) stmts(list []ast.Stmt, d int) string {
 		return c.stmts(rest, d)
 	case *ast.ReturnStmt:
 		var parts []string
+		if len(x.Results) == 1 && c.nres > 1 {
+			// `return f(…)` where f yields the whole result tuple
+			if cx, ok := x.Results[0].(*ast.CallExpr); ok {
+				if _, ex, isEff := c.effectOf(cx); isEff && ex.effect != "" {
+					c.fail(x, "return of an effect call")
+				}
+				term, tys := c.call(cx)
+				if len(tys) != c.nres {
+					c.fail(x, "return of a call with %d results in a function with %d", len(tys), c.nres)
+				}
+				val := term
+				if c.t.traceLean != "" {
+					if len(c.deferred) > 0 {
+						c.fail(x, "return of a call with deferred effects")
+					}
+					val = "(" + val + ", trace_)"
+				}
+				if c.inLoop {
+					return "KM.Go.Ctl.ret " + val
+				}
+				return val
+			}
+		}
 		for i, r := range x.Results {
 			t, ty := c.expr(r)
 			// a value handed back where the function declares a pointer result (the value came from an external that
@@ -1066,6 +1097,66 @@ func (c *glCtx) assign(x *ast.AssignStmt, rest []ast.Stmt, d int) string {
 }
 
 func (c *glCtx) assign2(x *ast.AssignStmt, rest []ast.Stmt, d int) string {
+	// `e1, … := f(a, &v)` where f is an external with an out-parameter: v receives the first component
+	if len(x.Rhs) == 1 {
+		if call, ok := x.Rhs[0].(*ast.CallExpr); ok {
+			if ex, ok := c.t.externs[c.p.str(call.Fun)]; ok && ex.out > 0 {
+				if ex.out > len(call.Args) || len(ex.ret) != len(x.Lhs)+1 {
+					c.fail(x, "out-parameter external %s: shape", c.p.str(call.Fun))
+				}
+				u, ok := call.Args[ex.out-1].(*ast.UnaryExpr)
+				if !ok || u.Op != token.AND {
+					c.fail(x, "out-parameter of %s is not &v", c.p.str(call.Fun))
+				}
+				ov, ok := u.X.(*ast.Ident)
+				if !ok {
+					c.fail(x, "out-parameter of %s is not a variable", c.p.str(call.Fun))
+				}
+				if _, known := c.lookup(ov.Name); !known {
+					c.fail(x, "out-parameter %s is not a local", ov.Name)
+				}
+				var parts []string
+				for i, a := range call.Args {
+					if i == ex.out-1 {
+						continue
+					}
+					if ex.args != nil {
+						keep := false
+						for _, j := range ex.args {
+							keep = keep || j == i
+						}
+						if !keep {
+							continue
+						}
+					}
+					sa, _ := c.expr(a)
+					parts = append(parts, sa)
+				}
+				term := ex.lean
+				if len(parts) > 0 {
+					term += " " + strings.Join(parts, " ")
+				}
+				pats := []string{leanIdent(ov.Name)}
+				for i, l := range x.Lhs {
+					id, ok := l.(*ast.Ident)
+					if !ok {
+						c.fail(x, "assignment to a non-variable")
+					}
+					if id.Name == "_" {
+						pats = append(pats, "_")
+						continue
+					}
+					if x.Tok == token.DEFINE {
+						c.declare(id.Name, ex.ret[i+1])
+					} else if _, ok := c.lookup(id.Name); !ok {
+						c.fail(x, "assignment to unknown %s", id.Name)
+					}
+					pats = append(pats, leanIdent(id.Name))
+				}
+				return "match (" + term + ") with" + ind(d) + "| (" + strings.Join(pats, ", ") + ") =>" + ind(d+1) + c.stmts(rest, d+1)
+			}
+		}
+	}
 	// several results of one call
 	if len(x.Lhs) > 1 && len(x.Rhs) == 1 {
 		var term string
